@@ -36,7 +36,6 @@ Calibration
 from __future__ import annotations
 
 import gc
-import os
 import random
 import shutil
 import tempfile
@@ -52,14 +51,24 @@ PROP = "C13"
 RULE = ("cases = (input family, member list); member 0 = (kind, variant, program, scalar operand, chunking, name option), "
         "every further member differs from member 0 in exactly one of them (or in nothing). Families: layout, shape, dtype, "
         "one-element, strings-resplit, object-elements, masked, index-or-columns, pandas-strings-resplit, python-sequences, "
-        "and - separately labelled, small - strings-resplit-at-hyphen, pandas-strings-resplit-at-hyphen, memmap-same-file. "
+        "and - separately labelled, small - strings-resplit-at-hyphen, pandas-strings-resplit-at-hyphen, memmap-same-file, "
+        "column-data-permuted. "
         "Each case: every member built and computed alone (isolated), then all built together and computed alone and "
         "together in both orders with optimize_graph True/False. non-trivial = at least two members are unequal but "
         "near-identical; distinct = distinct case description.")
 ASSUMPTIONS = ["sync scheduler", "a collection built and computed while no other generated collection is alive defines its value",
                "pyarrow stand-in (pandas-backed dataframes, convert-string off)"]
-BUDGET = {"quick": 60, "thorough": 560}
-FLOORS = {"quick": {"evaluations": 1, "distinct_nontrivial": 1}, "thorough": {"evaluations": 1, "distinct_nontrivial": 1}}
+BUDGET = {"quick": 50, "thorough": 560}
+FLOORS = {
+    "quick": {"evaluations": 1350, "distinct_nontrivial": 1000,
+              "counters": {"together_computes": 5200, "results_compared": 14500, "built_alone": 3600,
+                           "alone_vs_isolated_compared": 3600, "shared_keys_compared": 5500},
+              "max_skipped_fraction": 0.15},
+    "thorough": {"evaluations": 18000, "distinct_nontrivial": 13000,
+                 "counters": {"together_computes": 70000, "results_compared": 190000, "built_alone": 48000,
+                              "alone_vs_isolated_compared": 48000, "shared_keys_compared": 70000},
+                 "max_skipped_fraction": 0.15},
+}
 EXHAUSTIVE_SPACE = None
 CLAIM = ("Every generated tuple of near-identical collections was computed by the real dask.compute together (both orders, "
          "optimize_graph on/off) and each member alone; results were compared with the comparison discipline of the collection "
@@ -70,27 +79,10 @@ TECHNIQUE = "runtime monitoring: together-vs-alone differential oracle over near
 CASE_TIMEOUT = 120
 
 FAMILY_LABEL = {"pandas-strings-resplit-at-hyphen": "strings-resplit-at-hyphen", "pandas-strings-resplit": "strings-resplit"}
-_HY = "object arrays are tokenised through '-'.join(x.flat) (DESIGN 6 #6/#7): ['a-b','c'] and ['a','b-c'] get one name; "
-_MM = "np.memmap is tokenised by its bytes only (no dtype, no shape): memmaps of one file under other dtypes/shapes get one name; "
-_LAY = "ndarray token hashes ravel(order='K') + dtype + shape (DESIGN 6 #6): a C array and the F array over the same buffer get one token; "
-_COL = "pd.DataFrame token = block arrays + columns + index, not which column a block row belongs to: the same column data under permuted labels get one name; "
-PENDING = {
-    "together-vs-alone:array:strings-resplit-at-hyphen:result-differs": _HY + "dask.compute(from_array(a), from_array(b)) returns a's result twice",
-    "together-vs-alone:delayed:strings-resplit-at-hyphen:result-differs": _HY + "pure delayed calls on such arrays / Series / DataFrames computed together return the first result twice",
-    "shared-key-with-different-values:array:strings-resplit-at-hyphen": _HY + "same from_array key, different block values (results coincide, e.g. under ==)",
-    "built-next-to-siblings-vs-built-alone:dataframe:strings-resplit-at-hyphen:result-differs":
-        _HY + "from_pandas of the second frame IS the first expression (singleton by name): it computes the first frame's data even alone",
-    "built-next-to-siblings-vs-built-alone:dataframe:strings-resplit-at-hyphen:raises":
-        _HY + "hyphen re-split in the column labels: the second from_pandas is the first expression, selecting its own column raises KeyError",
-    "together-vs-alone:array:memmap-same-file:result-differs": _MM + "from_array(memmap int64) and from_array(memmap float64/uint64/other shape) computed together return one of them twice",
-    "together-vs-alone:delayed:memmap-same-file:result-differs": _MM + "pure delayed calls on such memmaps share a key",
-    "shared-key-with-different-values:array:memmap-same-file": _MM + "same 'original-array-<token>' key, different values",
-    "together-vs-alone:delayed:layout:result-differs": _LAY + "delayed(f, pure=True)(C) and (F-same-bytes) computed together return the first twice (from_array copies to C order and is not affected)",
-    "shared-key-with-different-values:delayed:layout": _LAY + "same delayed literal key, different values",
-    "built-next-to-siblings-vs-built-alone:dataframe:column-data-permuted:result-differs": _COL + "the second from_pandas is the first expression",
-    "together-vs-alone:dataframe:column-data-permuted:result-differs": _COL + "to_dask_array() of both frames computed together returns the first twice",
-    "together-vs-alone:delayed:column-data-permuted:result-differs": _COL + "pure delayed calls on the two frames share a key",
-}
+PENDING = {}
+# Found by this check on the pinned tree and repaired since in dask/tokenize.py (findings_proposed/C13.md): hyphen re-split object
+# strings, np.memmap tokens without dtype/shape, C/F layout collision reaching delayed arguments, DataFrame tokens without block
+# placement.  Their input families stay in the stream as a small, separately labelled fraction.
 KNOWN_FAMILIES = ("strings-resplit-at-hyphen", "pandas-strings-resplit-at-hyphen", "memmap-same-file", "column-data-permuted")
 
 ARR_NUM = ["id", "add_s", "radd_s", "mul_s", "sum", "sum0", "T", "astype_s", "slice", "rechunk", "mb_kw", "where_s", "eq_s",
@@ -104,14 +96,20 @@ DEL_PROGS = ["call", "call_kw", "call_pos", "literal", "nested", "op_add", "geti
 _STATE = {}
 
 
+def _ensure_env():
+    if not _STATE.get("env"):
+        import pandas  # noqa: F401
+
+        from ..shim import install_pyarrow
+
+        install_pyarrow()
+        import dask.dataframe  # noqa: F401
+
+        _STATE["env"] = True
+
+
 def shard_setup(tier, seed):
-    import pandas  # noqa: F401
-
-    from ..shim import install_pyarrow
-
-    install_pyarrow()
-    import dask.dataframe  # noqa: F401
-
+    _ensure_env()
     d = tempfile.mkdtemp(prefix="vf-c13-")
     _STATE["dir"] = d
     _STATE["mm"] = I.MemmapFiles(d)
@@ -502,6 +500,7 @@ def _kind_of(c):
 
 
 def run_case(case, ctx):
+    _ensure_env()
     import dask
 
     fam = case["family"]
